@@ -105,9 +105,14 @@ def saved_restored(ctx, fn: FunctionInfo, attr: str) -> bool:
                             S[2][0][1][0] == 'elem' and S[2][0][1][1] == L:
                         pair = (S[2][0][1], S[2][0])
                 if pair is not None and pair[1] == ('attr', pair[0], attr):
+                    # the saved collection ranges over EVERY module (recursive enumeration):
+                    # children() / named_children() stop at the first level, nested combiners
+                    # and layers inside blocks are not restored
+                    shallow = mentions(src, lambda y: y[0] == 'call' and method_call(y) is not None
+                                       and method_call(y)[1] in ('children', 'named_children'))
                     # restore happens after the disturbing calls (loop may run 0 times only if
                     # the saved collection is empty)
-                    if i > max(calls):
+                    if i > max(calls) and not shallow:
                         good = True
             # scalar idiom
             if val == ('attr', recv, attr):
